@@ -399,55 +399,69 @@ def _fullstack(ctx, case):
     import random
     frames = [bytes(f) for f in case["frames"]]
     tok, key = bytes(range(64)), bytes(range(100, 132))
-    net = H.new_net()
-    dev = SimDevice(net, version=3, token=tok, key=key, device_id=77)
-    r = random.Random(case["cseed"])
-    plan = {}
 
-    def on_exchange(conn, req, packets, meta):
-        if plan.get("done"):
-            return [(0, dev.wrap(conn, b"\xaa\x0b\xac" + bytes(7) + b"\xee"))]
-        plan["done"] = True
-        plan["t_req"] = conn.now()
-        pk = [dev.wrap(conn, f) for f in frames]
-        stream = bytes(case["garbage"]) + b"".join(pk)
-        n = len(stream)
-        k = min(case["ncuts"], n - 1)
-        cuts = sorted(r.sample(range(1, n), k)) if k else []
-        bounds = [0] + cuts + [n]
-        gap = case["gap"]
-        actions = []
-        t = 0.1
-        seg_t = []
-        for a, b in zip(bounds, bounds[1:]):
-            actions.append((t, stream[a:b]))
-            seg_t.append((b, t))
-            if gap:
-                t += min(gap, 1.9 / max(1, len(bounds)))   # total stays far below the 2 s read timeout
-        end1 = len(case["garbage"]) + len(pk[0])
-        plan["t_first"] = next(tt for b, tt in seg_t if b >= end1)
-        plan["cuts"] = cuts
-        return actions
+    def one_run(reference_of=None):
+        """The scenario once.  reference_of=None: the case's segmentation.  Otherwise: the same stream, every packet delivered whole, in
+        one segment, at the instant its last byte arrived in the given (earlier) run - the segmentation-free reference for timing."""
+        net = H.new_net()
+        dev = SimDevice(net, version=3, token=tok, key=key, device_id=77)
+        r = random.Random(case["cseed"])
+        plan = {}
 
-    dev.on_exchange = on_exchange
+        def on_exchange(conn, req, packets, meta):
+            if plan.get("done"):
+                return [(0, dev.wrap(conn, b"\xaa\x0b\xac" + bytes(7) + b"\xee"))]
+            plan["done"] = True
+            plan["t_req"] = conn.now()
+            pk = [dev.wrap(conn, f) for f in frames]
+            stream = bytes(case["garbage"]) + b"".join(pk)
+            n = len(stream)
+            k = min(case["ncuts"], n - 1)
+            cuts = sorted(r.sample(range(1, n), k)) if k else []
+            bounds = [0] + cuts + [n]
+            gap = case["gap"]
+            actions = []
+            t = 0.1
+            seg_t = []
+            for a, b in zip(bounds, bounds[1:]):
+                actions.append((t, stream[a:b]))
+                seg_t.append((b, t))
+                if gap:
+                    t += min(gap, 1.9 / max(1, len(bounds)))   # total stays far below the 2 s read timeout
+            ends, pos = [], len(case["garbage"])
+            for p in pk:
+                pos += len(p)
+                ends.append(pos)
+            done_at = [next(tt for b, tt in seg_t if b >= e) for e in ends]       # instant at which each packet is complete
+            plan["t_first"] = done_at[0]
+            plan["done_at"] = done_at
+            plan["cuts"] = cuts
+            if reference_of is not None:
+                starts = [0] + ends[:-1]
+                return [(reference_of[i], stream[starts[i]:ends[i]]) for i in range(len(pk))]
+            return actions
 
-    async def go(loop):
-        lan = LAN(dev.host, dev.port, 77)
-        await lan.authenticate(tok, key)
-        t0 = loop.time()
-        got = list(await lan.send(b"\xaa\x0b\xac" + bytes(8)))
-        t1 = loop.time()
-        await asyncio.sleep(3.3)
-        got2 = list(await lan.send(b"\xaa\x0b\xac" + bytes(8)))
-        return t0, t1, got, got2
+        dev.on_exchange = on_exchange
+
+        async def go(loop):
+            lan = LAN(dev.host, dev.port, 77)
+            await lan.authenticate(tok, key)
+            t0 = loop.time()
+            got = list(await lan.send(b"\xaa\x0b\xac" + bytes(8)))
+            t1 = loop.time()
+            await asyncio.sleep(3.3)
+            got2 = list(await lan.send(b"\xaa\x0b\xac" + bytes(8)))
+            return t0, t1, got, got2
+
+        (t0, t1, got, got2), loop = H.run_virtual(go, net)
+        return plan, t1, got, got2
 
     key_ = ("fs", case["cseed"], len(frames), case["ncuts"])
     try:
-        (t0, t1, got, got2), loop = H.run_virtual(go, net)
+        plan, t1, got, got2 = one_run()
     except Exception as e:  # noqa: BLE001
         ctx.count(key_, kind="fullstack-raised")
-        ctx.violation("fullstack-raises", f"{type(e).__name__}: {e} for a segmented genuine reply stream", case,
-                      {"cuts": plan.get("cuts")})
+        ctx.violation("fullstack-raises", f"{type(e).__name__}: {e} for a segmented genuine reply stream", case)
         return
     allgot = [bytes(g) for g in got + got2]
     want = frames + [b"\xaa\x0b\xac" + bytes(7) + b"\xee"]
@@ -456,11 +470,21 @@ def _fullstack(ctx, case):
         ctx.violation("fullstack-frames", "frames returned by consecutive sends differ from the frames the device sent", case,
                       {"cuts": plan.get("cuts"), "got": allgot, "want": want})
         return
-    # promptness is measured from the instant the device received the request (when send() itself chooses to write it - e.g.
-    # after a settling pause following the handshake - is not the framer's business)
-    if abs((t1 - plan["t_req"]) - plan["t_first"]) > 1e-6:
+    # promptness ("as soon as its last byte has arrived", observed where send() returns) is judged against the same exchange with the
+    # same packets completing at the same instants but delivered unsegmented: whatever send() does once a reply is complete (return at
+    # once, or collect trailing responses for a moment), segmentation must not make it later; and it must not approach the 2 s read
+    # timeout.  Measured from the instant the device received the request.
+    late = (t1 - plan["t_req"]) - plan["t_first"]
+    try:
+        plan0, t1_0, got_0, got2_0 = one_run(reference_of=plan["done_at"])
+        late0 = (t1_0 - plan0["t_req"]) - plan0["t_first"]
+    except Exception as e:  # noqa: BLE001
+        ctx.count(key_, kind="fullstack-raised")
+        ctx.violation("fullstack-raises", f"{type(e).__name__}: {e} for the unsegmented delivery of a genuine reply stream", case)
+        return
+    if late < -1e-6 or late > late0 + 1e-6 or late0 > 0.5 or len(got) < len(got_0):
         ctx.count(key_, kind="fullstack-late")
-        ctx.violation("fullstack-promptness", f"first send returned {t1 - plan['t_req']:.3f}s after its request reached the device but the first packet "
-                      f"of the reply was complete after {plan['t_first']:.3f}s", case, {"cuts": plan.get("cuts")})
+        ctx.violation("fullstack-promptness", f"first send returned {late:.3f}s after the first packet of the reply was complete ({len(got)} frames); with the same packets "
+                      f"delivered unsegmented at the same instants it returns {late0:.3f}s after it ({len(got_0)} frames)", case, {"cuts": plan.get("cuts")})
         return
     ctx.count(key_, kind="fullstack-ok", sample={"frames": [f.hex() for f in frames], "cuts": plan["cuts"][:10], "t_first": plan["t_first"]})
